@@ -51,9 +51,10 @@ func (e *kvElection) heartbeatLoop(ctx context.Context, termToken string) {
 						e.handleHealthCheckFailure()
 						return
 					}
-					continue
-				}
-				if e.healthFailureCount.Load() > 0 {
+					// Below the threshold the instance keeps its claim, so the record
+					// must stay refreshed: skipping the heartbeat would let it lapse
+					// under a claiming leader and let a second leader in.
+				} else if e.healthFailureCount.Load() > 0 {
 					e.healthFailureCount.Store(0)
 					log := e.getLogger()
 					log.Debug("health_check_recovered",
